@@ -19,31 +19,31 @@ From DV Require Import C08.Gen C08.Model.
 Import ListNotations.
 Local Open Scope N_scope.
 
-Module B := C02.Model.
+
 Notation wname := DV.Base.Names.name.
 
 Section ToMessage.
 Variable enc_name : name -> wname.                    (* owner names (absolute, wire order) *)
-Variable enc_rdata : rtype -> rdata -> list B.ritem.   (* compose_rdata of the record data *)
+Variable enc_rdata : rtype -> rdata -> list C02.Model.ritem.   (* compose_rdata of the record data *)
 Variable prefixed : rtype -> bool.                     (* the data type's rdlen() is None *)
 Variables (qname : wname) (qtype qclass : N).         (* the sole question of the request *)
 Variables (rid ropcode : N) (rrd : bool).              (* request header: id, opcode, RD *)
 Variable glue_class : N.                               (* class of the stored glue records *)
 
-Definition mk_rec (owner : wname) (cls t ttl : N) (d : rdata) : B.rrecord :=
-  B.mkR owner t cls ttl (prefixed t) (enc_rdata t d).
+Definition mk_rec (owner : wname) (cls t ttl : N) (d : rdata) : C02.Model.rrecord :=
+  C02.Model.mkR owner t cls ttl (prefixed t) (enc_rdata t d).
 
-Definition answer_records (a : answer) : list B.rrecord :=
+Definition answer_records (a : answer) : list C02.Model.rrecord :=
   match a_content a with
   | AData r => map (mk_rec qname qclass (rs_type r) (rs_ttl r)) (rs_data r)
   | ACname c => [mk_rec qname qclass rt_cname (rr_ttl c) (rr_data c)]
   | ANoData => []
   end.
 
-Definition rrset_records (owner : wname) (r : rrset) : list B.rrecord :=
+Definition rrset_records (owner : wname) (r : rrset) : list C02.Model.rrecord :=
   map (mk_rec owner qclass (rs_type r) (rs_ttl r)) (rs_data r).
 
-Definition authority_records (a : answer) : list B.rrecord :=
+Definition authority_records (a : answer) : list C02.Model.rrecord :=
   match a_auth a with
   | None => []
   | Some au =>
@@ -53,88 +53,88 @@ Definition authority_records (a : answer) : list B.rrecord :=
       ++ (match au_ds au with Some r => rrset_records o r | None => [] end)
   end.
 
-Definition additional_records (a : answer) : list B.rrecord :=
+Definition additional_records (a : answer) : list C02.Model.rrecord :=
   map (fun g => mk_rec (enc_name (g_owner g)) glue_class (g_type g) (g_ttl g) (g_data g)) (a_addl a).
 
 (* the calls to_message makes *)
-Definition to_message_ops (a : answer) : list B.op :=
-  [B.OpHdr [B.HId rid; B.HFlag B.FQr true; B.HOpcode ropcode; B.HFlag B.FRd rrd; B.HRcode (a_rcode a)];
-   B.OpQ (B.mkQ qname qtype qclass); B.OpNext]
-  ++ (if a_aa a then [B.OpHdr [B.HFlag B.FAa true]] else [])
-  ++ map B.OpR (answer_records a) ++ [B.OpNext]
-  ++ map B.OpR (authority_records a) ++ [B.OpNext]
-  ++ map B.OpR (additional_records a).
+Definition to_message_ops (a : answer) : list C02.Model.op :=
+  [C02.Model.OpHdr [C02.Model.HId rid; C02.Model.HFlag C02.Model.FQr true; C02.Model.HOpcode ropcode; C02.Model.HFlag C02.Model.FRd rrd; C02.Model.HRcode (a_rcode a)];
+   C02.Model.OpQ (C02.Model.mkQ qname qtype qclass); C02.Model.OpNext]
+  ++ (if a_aa a then [C02.Model.OpHdr [C02.Model.HFlag C02.Model.FAa true]] else [])
+  ++ map C02.Model.OpR (answer_records a) ++ [C02.Model.OpNext]
+  ++ map C02.Model.OpR (authority_records a) ++ [C02.Model.OpNext]
+  ++ map C02.Model.OpR (additional_records a).
 
 (* the sections the message is meant to carry *)
-Definition intended (a : answer) : B.acc :=
-  B.mkAcc [B.mkQ qname qtype qclass] (answer_records a) (authority_records a) (additional_records a).
+Definition intended (a : answer) : C02.Model.acc :=
+  C02.Model.mkAcc [C02.Model.mkQ qname qtype qclass] (answer_records a) (authority_records a) (additional_records a).
 
 (* every push returned Ok (to_message unwraps each of them) *)
-Definition no_push_failed (ws : list B.rword) : Prop := Forall (fun w => w = B.ROk \/ w = B.RNone) ws.
+Definition no_push_failed (ws : list C02.Model.rword) : Prop := Forall (fun w => w = C02.Model.ROk \/ w = C02.Model.RNone) ws.
 
 (* ------------------------------------------------------------------ symbolic run of such scripts *)
-Lemma mb_push_ok_sec c s f s' : B.mb_push c s f = (s', B.ROk) -> B.b_sec s' = B.b_sec s.
+Lemma mb_push_ok_sec c s f s' : C02.Model.mb_push c s f = (s', C02.Model.ROk) -> C02.Model.b_sec s' = C02.Model.b_sec s.
 Proof.
-  unfold B.mb_push, B.fail_push. destruct (f (B.b_w s)); try discriminate.
+  unfold C02.Model.mb_push, C02.Model.fail_push. destruct (f (C02.Model.b_w s)); try discriminate.
   - repeat match goal with |- context [if ?b then _ else _] => destruct b end;
-      try (destruct (B.truncate _ _ _); discriminate).
-    intro H. inversion H; subst. unfold B.set_count, B.set_w. cbn [B.b_sec].
-    destruct (B.b_sec s =? 0); [reflexivity|]. destruct (B.b_sec s =? 1); [reflexivity|]. destruct (B.b_sec s =? 2); reflexivity.
-  - destruct (B.truncate _ _ _); discriminate.
+      try (destruct (C02.Model.truncate _ _ _); discriminate).
+    intro H. inversion H; subst. unfold C02.Model.set_count, C02.Model.set_w. cbn [C02.Model.b_sec].
+    destruct (C02.Model.b_sec s =? 0); [reflexivity|]. destruct (C02.Model.b_sec s =? 1); [reflexivity|]. destruct (C02.Model.b_sec s =? 2); reflexivity.
+  - destruct (C02.Model.truncate _ _ _); discriminate.
 Qed.
 
-Lemma mb_push_not_none c s f s' : B.mb_push c s f = (s', B.RNone) -> False.
+Lemma mb_push_not_none c s f s' : C02.Model.mb_push c s f = (s', C02.Model.RNone) -> False.
 Proof.
-  unfold B.mb_push, B.fail_push. destruct (f (B.b_w s)); try discriminate.
+  unfold C02.Model.mb_push, C02.Model.fail_push. destruct (f (C02.Model.b_w s)); try discriminate.
   - repeat match goal with |- context [if ?b then _ else _] => destruct b end;
-      try (destruct (B.truncate _ _ _); discriminate). discriminate.
-  - destruct (B.truncate _ _ _); discriminate.
+      try (destruct (C02.Model.truncate _ _ _); discriminate). discriminate.
+  - destruct (C02.Model.truncate _ _ _); discriminate.
 Qed.
 
 Lemma run_acc_cons c s a o r :
-  B.run_acc c s a (o :: r) =
-  (let '(s1, w) := B.step c s o in
-   let a1 := B.acc_step (B.b_sec s) a o w in
-   if B.is_dead w then (s1, a1, [w]) else let '(s2, a2, ws) := B.run_acc c s1 a1 r in (s2, a2, w :: ws)).
+  C02.Model.run_acc c s a (o :: r) =
+  (let '(s1, w) := C02.Model.step c s o in
+   let a1 := C02.Model.acc_step (C02.Model.b_sec s) a o w in
+   if C02.Model.is_dead w then (s1, a1, [w]) else let '(s2, a2, ws) := C02.Model.run_acc c s1 a1 r in (s2, a2, w :: ws)).
 Proof. reflexivity. Qed.
 
 (* pushing records in section k >= 1 *)
 Lemma run_records c k : forall rs s a s' a' ws,
-  B.b_sec s = k -> k <> 0 ->
-  B.run_acc c s a (map B.OpR rs) = (s', a', ws) -> no_push_failed ws ->
-  B.b_sec s' = k /\ a' = fold_left (fun x r => B.acc_add_r x k r) rs a.
+  C02.Model.b_sec s = k -> k <> 0 ->
+  C02.Model.run_acc c s a (map C02.Model.OpR rs) = (s', a', ws) -> no_push_failed ws ->
+  C02.Model.b_sec s' = k /\ a' = fold_left (fun x r => C02.Model.acc_add_r x k r) rs a.
 Proof.
   induction rs as [|r rs IH]; intros s a s' a' ws Hk Hk0 Hrun Hok.
   - simpl in Hrun. inversion Hrun; subst. auto.
   - cbn [map] in Hrun. rewrite run_acc_cons in Hrun.
-    unfold B.step, B.step_gen in Hrun. assert (E0 : (B.b_sec s =? 0) = false) by (apply N.eqb_neq; congruence).
-    rewrite E0 in Hrun. destruct (B.mb_push c s (B.compose_record c r)) as [s1 w] eqn:Ep.
-    destruct (B.is_dead w) eqn:Ed.
+    unfold C02.Model.step, C02.Model.step_gen in Hrun. assert (E0 : (C02.Model.b_sec s =? 0) = false) by (apply N.eqb_neq; congruence).
+    rewrite E0 in Hrun. destruct (C02.Model.mb_push c s (C02.Model.compose_record c r)) as [s1 w] eqn:Ep.
+    destruct (C02.Model.is_dead w) eqn:Ed.
     + injection Hrun as J1 J2 J3; subst s' a' ws. unfold no_push_failed in Hok. apply Forall_cons_iff in Hok. destruct Hok as [[Hw|Hw] _]; subst; discriminate.
-    + destruct (B.run_acc c s1 (B.acc_step (B.b_sec s) a (B.OpR r) w) (map B.OpR rs)) as [[s2 a2] ws2] eqn:Er.
+    + destruct (C02.Model.run_acc c s1 (C02.Model.acc_step (C02.Model.b_sec s) a (C02.Model.OpR r) w) (map C02.Model.OpR rs)) as [[s2 a2] ws2] eqn:Er.
       injection Hrun as J1 J2 J3; subst s' a' ws. unfold no_push_failed in Hok. apply Forall_cons_iff in Hok. destruct Hok as [[Hw|Hw] Hrest]; subst.
-      * cbn [B.acc_step] in Er. pose proof (mb_push_ok_sec _ _ _ _ Ep) as Hs.
+      * cbn [C02.Model.acc_step] in Er. pose proof (mb_push_ok_sec _ _ _ _ Ep) as Hs.
         destruct (IH _ _ _ _ _ (eq_trans Hs eq_refl) Hk0 Er Hrest) as [A1 A2]. split; [exact A1|]. exact A2.
       * exfalso. eapply mb_push_not_none; eauto.
 Qed.
 
-Lemma fold_add_an a rs : fold_left (fun x r => B.acc_add_r x 1 r) rs a = B.mkAcc (B.a_q a) (B.a_an a ++ rs) (B.a_ns a) (B.a_ar a).
-Proof. revert a. induction rs as [|r rs IH]; intro a; simpl; [rewrite app_nil_r; destruct a; reflexivity|]. rewrite IH. unfold B.acc_add_r. simpl. rewrite <- app_assoc. reflexivity. Qed.
-Lemma fold_add_ns a rs : fold_left (fun x r => B.acc_add_r x 2 r) rs a = B.mkAcc (B.a_q a) (B.a_an a) (B.a_ns a ++ rs) (B.a_ar a).
-Proof. revert a. induction rs as [|r rs IH]; intro a; simpl; [rewrite app_nil_r; destruct a; reflexivity|]. rewrite IH. unfold B.acc_add_r. simpl. rewrite <- app_assoc. reflexivity. Qed.
-Lemma fold_add_ar a rs : fold_left (fun x r => B.acc_add_r x 3 r) rs a = B.mkAcc (B.a_q a) (B.a_an a) (B.a_ns a) (B.a_ar a ++ rs).
-Proof. revert a. induction rs as [|r rs IH]; intro a; simpl; [rewrite app_nil_r; destruct a; reflexivity|]. rewrite IH. unfold B.acc_add_r. simpl. rewrite <- app_assoc. reflexivity. Qed.
+Lemma fold_add_an a rs : fold_left (fun x r => C02.Model.acc_add_r x 1 r) rs a = C02.Model.mkAcc (C02.Model.a_q a) (C02.Model.a_an a ++ rs) (C02.Model.a_ns a) (C02.Model.a_ar a).
+Proof. revert a. induction rs as [|r rs IH]; intro a; simpl; [rewrite app_nil_r; destruct a; reflexivity|]. rewrite IH. unfold C02.Model.acc_add_r. simpl. rewrite <- app_assoc. reflexivity. Qed.
+Lemma fold_add_ns a rs : fold_left (fun x r => C02.Model.acc_add_r x 2 r) rs a = C02.Model.mkAcc (C02.Model.a_q a) (C02.Model.a_an a) (C02.Model.a_ns a ++ rs) (C02.Model.a_ar a).
+Proof. revert a. induction rs as [|r rs IH]; intro a; simpl; [rewrite app_nil_r; destruct a; reflexivity|]. rewrite IH. unfold C02.Model.acc_add_r. simpl. rewrite <- app_assoc. reflexivity. Qed.
+Lemma fold_add_ar a rs : fold_left (fun x r => C02.Model.acc_add_r x 3 r) rs a = C02.Model.mkAcc (C02.Model.a_q a) (C02.Model.a_an a) (C02.Model.a_ns a) (C02.Model.a_ar a ++ rs).
+Proof. revert a. induction rs as [|r rs IH]; intro a; simpl; [rewrite app_nil_r; destruct a; reflexivity|]. rewrite IH. unfold C02.Model.acc_add_r. simpl. rewrite <- app_assoc. reflexivity. Qed.
 
 (* splitting a run *)
-Lemma run_acc_app c : forall o1 o2 s a s' a' ws, B.run_acc c s a (o1 ++ o2) = (s', a', ws) -> no_push_failed ws ->
-  exists s1 a1 w1 w2, B.run_acc c s a o1 = (s1, a1, w1) /\ B.run_acc c s1 a1 o2 = (s', a', w2) /\ ws = w1 ++ w2.
+Lemma run_acc_app c : forall o1 o2 s a s' a' ws, C02.Model.run_acc c s a (o1 ++ o2) = (s', a', ws) -> no_push_failed ws ->
+  exists s1 a1 w1 w2, C02.Model.run_acc c s a o1 = (s1, a1, w1) /\ C02.Model.run_acc c s1 a1 o2 = (s', a', w2) /\ ws = w1 ++ w2.
 Proof.
   induction o1 as [|o o1 IH]; intros o2 s a s' a' ws Hrun Hok.
   - exists s, a, [], ws. simpl. auto.
   - cbn [app] in Hrun. rewrite run_acc_cons in Hrun. rewrite run_acc_cons.
-    destruct (B.step c s o) as [s1 w]. cbv beta iota zeta in Hrun |- *. destruct (B.is_dead w) eqn:Ed.
+    destruct (C02.Model.step c s o) as [s1 w]. cbv beta iota zeta in Hrun |- *. destruct (C02.Model.is_dead w) eqn:Ed.
     + injection Hrun as J1 J2 J3; subst s' a' ws. unfold no_push_failed in Hok. apply Forall_cons_iff in Hok. destruct Hok as [[Hw|Hw] _]; subst; discriminate.
-    + destruct (B.run_acc c s1 (B.acc_step (B.b_sec s) a o w) (o1 ++ o2)) as [[s2 a2] ws2] eqn:Er. cbv beta iota zeta in Hrun.
+    + destruct (C02.Model.run_acc c s1 (C02.Model.acc_step (C02.Model.b_sec s) a o w) (o1 ++ o2)) as [[s2 a2] ws2] eqn:Er. cbv beta iota zeta in Hrun.
       injection Hrun as J1 J2 J3; subst s' a' ws. unfold no_push_failed in Hok. apply Forall_cons_iff in Hok. destruct Hok as [_ Hrest].
       destruct (IH _ _ _ _ _ _ Er Hrest) as (t1 & b1 & x1 & x2 & E1 & E2 & E3).
       rewrite E1. exists t1, b1, (w :: x1), x2. subst. auto.
@@ -144,36 +144,36 @@ Lemma ok_app w1 w2 : no_push_failed (w1 ++ w2) -> no_push_failed w1 /\ no_push_f
 Proof. unfold no_push_failed. rewrite Forall_app. auto. Qed.
 
 (* single non-push steps *)
-Lemma run_hdr c s a l s' a' ws : B.run_acc c s a [B.OpHdr l] = (s', a', ws) -> B.b_sec s' = B.b_sec s /\ a' = a.
+Lemma run_hdr c s a l s' a' ws : C02.Model.run_acc c s a [C02.Model.OpHdr l] = (s', a', ws) -> C02.Model.b_sec s' = C02.Model.b_sec s /\ a' = a.
 Proof.
-  intro H. rewrite run_acc_cons in H. unfold B.step, B.step_gen in H.
-  cbn [B.is_dead B.acc_step B.run_acc] in H. cbv beta iota zeta in H. injection H as J1 J2 J3. subst. split; reflexivity.
+  intro H. rewrite run_acc_cons in H. unfold C02.Model.step, C02.Model.step_gen in H.
+  cbn [C02.Model.is_dead C02.Model.acc_step C02.Model.run_acc] in H. cbv beta iota zeta in H. injection H as J1 J2 J3. subst. split; reflexivity.
 Qed.
-Lemma run_next c s a s' a' ws : B.b_sec s <? 3 = true -> B.run_acc c s a [B.OpNext] = (s', a', ws) -> B.b_sec s' = B.b_sec s + 1 /\ a' = a.
+Lemma run_next c s a s' a' ws : C02.Model.b_sec s <? 3 = true -> C02.Model.run_acc c s a [C02.Model.OpNext] = (s', a', ws) -> C02.Model.b_sec s' = C02.Model.b_sec s + 1 /\ a' = a.
 Proof.
-  intros Hl H. rewrite run_acc_cons in H. unfold B.step, B.step_gen in H. rewrite Hl in H.
-  cbn [B.is_dead B.acc_step B.run_acc] in H. cbv beta iota zeta in H. injection H as J1 J2 J3. subst. split; reflexivity.
+  intros Hl H. rewrite run_acc_cons in H. unfold C02.Model.step, C02.Model.step_gen in H. rewrite Hl in H.
+  cbn [C02.Model.is_dead C02.Model.acc_step C02.Model.run_acc] in H. cbv beta iota zeta in H. injection H as J1 J2 J3. subst. split; reflexivity.
 Qed.
-Lemma run_q c s a q s' a' ws : B.b_sec s = 0 -> B.run_acc c s a [B.OpQ q] = (s', a', ws) -> no_push_failed ws ->
-  B.b_sec s' = 0 /\ a' = B.mkAcc (B.a_q a ++ [q]) (B.a_an a) (B.a_ns a) (B.a_ar a).
+Lemma run_q c s a q s' a' ws : C02.Model.b_sec s = 0 -> C02.Model.run_acc c s a [C02.Model.OpQ q] = (s', a', ws) -> no_push_failed ws ->
+  C02.Model.b_sec s' = 0 /\ a' = C02.Model.mkAcc (C02.Model.a_q a ++ [q]) (C02.Model.a_an a) (C02.Model.a_ns a) (C02.Model.a_ar a).
 Proof.
-  intros H0 Hrun Hok. rewrite run_acc_cons in Hrun. unfold B.step, B.step_gen in Hrun. rewrite H0 in Hrun.
+  intros H0 Hrun Hok. rewrite run_acc_cons in Hrun. unfold C02.Model.step, C02.Model.step_gen in Hrun. rewrite H0 in Hrun.
   change (0 =? 0) with true in Hrun. cbv beta iota zeta in Hrun.
-  destruct (B.mb_push c s (B.compose_question c q)) as [s1 w] eqn:Ep. cbv beta iota zeta in Hrun.
+  destruct (C02.Model.mb_push c s (C02.Model.compose_question c q)) as [s1 w] eqn:Ep. cbv beta iota zeta in Hrun.
   unfold no_push_failed in Hok.
-  destruct (B.is_dead w) eqn:Ed; cbn [B.run_acc] in Hrun; cbv beta iota zeta in Hrun;
+  destruct (C02.Model.is_dead w) eqn:Ed; cbn [C02.Model.run_acc] in Hrun; cbv beta iota zeta in Hrun;
     injection Hrun as J1 J2 J3; subst s' a' ws; apply Forall_cons_iff in Hok; destruct Hok as [[Hw|Hw] _]; subst; try discriminate.
   - pose proof (mb_push_ok_sec _ _ _ _ Ep). split; [congruence|]. reflexivity.
   - exfalso. eapply mb_push_not_none; eauto.
 Qed.
 
 (* a to_message whose pushes all succeed accepts exactly the intended sections *)
-Lemma to_message_accepts c s0 a s acc ws : B.init c = Some s0 ->
-  B.run_acc c s0 B.acc0 (to_message_ops a) = (s, acc, ws) -> no_push_failed ws -> acc = intended a.
+Lemma to_message_accepts c s0 a s acc ws : C02.Model.init c = Some s0 ->
+  C02.Model.run_acc c s0 C02.Model.acc0 (to_message_ops a) = (s, acc, ws) -> no_push_failed ws -> acc = intended a.
 Proof.
   intros Hi Hrun Hok.
-  assert (Hs0 : B.b_sec s0 = 0).
-  { unfold B.init in Hi. destruct (B.append_slice _ _ _); try discriminate. inversion Hi; reflexivity. }
+  assert (Hs0 : C02.Model.b_sec s0 = 0).
+  { unfold C02.Model.init in Hi. destruct (C02.Model.append_slice _ _ _); try discriminate. inversion Hi; reflexivity. }
   unfold to_message_ops in Hrun.
   change ([?x; ?y; ?z] ++ ?r) with ([x] ++ [y] ++ [z] ++ r) in Hrun.
   destruct (run_acc_app _ _ _ _ _ _ _ _ Hrun Hok) as (t1 & b1 & u1 & v1 & E1 & R1 & W1).
@@ -197,7 +197,7 @@ Proof.
   destruct (run_q _ _ _ _ _ _ _ (eq_trans S1 Hs0) E2 K2) as [S2 A2]. subst b2.
   destruct (run_next _ _ _ _ _ _ ltac:(rewrite S2; reflexivity) E3) as [S3 A3]. subst b3. rewrite S2 in S3.
   (* AA *)
-  assert (S4 : B.b_sec t4 = 1 /\ b4 = B.mkAcc [B.mkQ qname qtype qclass] [] [] []).
+  assert (S4 : C02.Model.b_sec t4 = 1 /\ b4 = C02.Model.mkAcc [C02.Model.mkQ qname qtype qclass] [] [] []).
   { destruct (a_aa a); [destruct (run_hdr _ _ _ _ _ _ _ E4) as [Sx Ax]; subst; split; [rewrite Sx; exact S3|reflexivity]|].
     simpl in E4. injection E4 as J1 J2 J3. subst. split; [exact S3|reflexivity]. }
   destruct S4 as [S4 A4]. subst b4.
@@ -212,10 +212,10 @@ Qed.
 (* The tie: if the pushed items are well formed (C02) and to_message does not
    panic (no push failed), the produced octets parse back to exactly the
    question, answer, authority and additional records of the Answer, in order. *)
-Theorem to_message_parses_to_answer c s0 a s acc ws : B.init c = Some s0 ->
+Theorem to_message_parses_to_answer c s0 a s acc ws : C02.Model.init c = Some s0 ->
   Forall C02.ProofsTotal.wf_op_sized (to_message_ops a) ->
-  B.run_acc c s0 B.acc0 (to_message_ops a) = (s, acc, ws) -> no_push_failed ws ->
-  exists parsed, B.rd_message (B.msg_of s) (intended a) = Ok parsed /\ B.acc_eqb parsed (intended a) = true.
+  C02.Model.run_acc c s0 C02.Model.acc0 (to_message_ops a) = (s, acc, ws) -> no_push_failed ws ->
+  exists parsed, C02.Model.rd_message (C02.Model.msg_of s) (intended a) = Ok parsed /\ C02.Model.acc_eqb parsed (intended a) = true.
 Proof.
   intros Hi Hwf Hrun Hok.
   destruct (C02.ProofsTotal.build_parse_total c _ s0 s acc ws Hi Hwf Hrun) as [_ (p & Hp & He)].
@@ -224,18 +224,128 @@ Qed.
 End ToMessage.
 
 (* non-vacuity: a positive answer with SOA-less authority, composed into an unlimited uncompressed target *)
-Definition ex_cfg : B.tcfg := B.mkCfg None false B.KNone.
+Definition ex_cfg : C02.Model.tcfg := C02.Model.mkCfg None false C02.Model.KNone.
 Definition ex_answer : answer :=
   mkAnswer rc_noerror true (AData (mkRrset rt_a 300 [mkRd 4 None; mkRd 5 None]))
            (Some (mkAuth [] None (Some (mkRrset rt_ns 60 [mkRd 9 None])) None)) [mkG [353] rt_a 77 (mkRd 7 None)].
-Definition ex_ops := to_message_ops (fun p => map (fun l => [l mod 256]) (rev p) ++ [[122]]) (fun _ d => [B.RBytes [0; 0; 0; rd_tok d]])
+Definition ex_ops := to_message_ops (fun p => map (fun l => [l mod 256]) (rev p) ++ [[122]]) (fun _ d => [C02.Model.RBytes [0; 0; 0; rd_tok d]])
                                     (fun _ => false) [[119]; [122]] 1 1 4660 0 true 1 ex_answer.
 Example to_message_example :
-  match B.init ex_cfg with
-  | Some s0 => let '(s, acc, ws) := B.run_acc ex_cfg s0 B.acc0 ex_ops in
-               forallb (fun w => match w with B.ROk | B.RNone => true | _ => false end) ws = true /\
-               length (B.a_an acc) = 2%nat /\ length (B.a_ns acc) = 1%nat /\ length (B.a_ar acc) = 1%nat /\
-               match B.rd_message (B.msg_of s) acc with Ok p => B.acc_eqb p acc = true | _ => False end
+  match C02.Model.init ex_cfg with
+  | Some s0 => let '(s, acc, ws) := C02.Model.run_acc ex_cfg s0 C02.Model.acc0 ex_ops in
+               forallb (fun w => match w with C02.Model.ROk | C02.Model.RNone => true | _ => false end) ws = true /\
+               length (C02.Model.a_an acc) = 2%nat /\ length (C02.Model.a_ns acc) = 1%nat /\ length (C02.Model.a_ar acc) = 1%nat /\
+               match C02.Model.rd_message (C02.Model.msg_of s) acc with Ok p => C02.Model.acc_eqb p acc = true | _ => False end
   | None => False
   end.
 Proof. vm_compute. repeat split; reflexivity. Qed.
+
+(* ------------------------------------------------------------------ when a push fails *)
+(* Executable to_message over C02's step function, for both shapes of the
+   code: [trunc = false] unwraps every push (a failed push panics),
+   [trunc = true] stops adding records at the first failed push and sets TC.
+   T1 reads which shape the source has ([to_message_truncates]). *)
+Definition P_UNWRAP : N := 30.
+Inductive tm_result := TmOk (s : C02.Model.bstate) (acc : C02.Model.acc) | TmPanic (site : N).
+
+Fixpoint push_all (trunc : bool) (c : C02.Model.tcfg) (rs : list C02.Model.rrecord) (s : C02.Model.bstate) (acc : C02.Model.acc)
+  : (C02.Model.bstate * C02.Model.acc * bool) + N :=
+  match rs with
+  | [] => inl (s, acc, false)
+  | r :: rs' =>
+      let '(s1, w) := C02.Model.step c s (C02.Model.OpR r) in
+      let a1 := C02.Model.acc_step (C02.Model.b_sec s) acc (C02.Model.OpR r) w in
+      match w with
+      | C02.Model.ROk | C02.Model.RNone => push_all trunc c rs' s1 a1
+      | C02.Model.RErr _ => if trunc then inl (s1, a1, true) else inr P_UNWRAP
+      | C02.Model.RPanic x => inr x
+      | C02.Model.RFuel => inr 99
+      end
+  end.
+
+Definition step_plain (c : C02.Model.tcfg) (s : C02.Model.bstate) (acc : C02.Model.acc) (o : C02.Model.op) : C02.Model.bstate * C02.Model.acc :=
+  let '(s1, w) := C02.Model.step c s o in (s1, C02.Model.acc_step (C02.Model.b_sec s) acc o w).
+
+Section Run.
+Variables (trunc : bool) (c : C02.Model.tcfg) (pre : list C02.Model.op).
+Variables (q : C02.Model.question) (rid ropcode : N) (rrd : bool) (rcode : N) (aa : bool).
+Variables (an au ad : list C02.Model.rrecord).
+
+Definition to_message_run : tm_result :=
+  match C02.Model.init c with
+  | None => TmPanic 98
+  | Some s0 =>
+      let '(s1, a1, _) := C02.Model.run_acc c s0 C02.Model.acc0 pre in
+      let '(s2, a2) := step_plain c s1 a1 (C02.Model.OpHdr [C02.Model.HId rid; C02.Model.HFlag C02.Model.FQr true; C02.Model.HOpcode ropcode; C02.Model.HFlag C02.Model.FRd rrd; C02.Model.HRcode rcode]) in
+      let '(s3, w) := C02.Model.step c s2 (C02.Model.OpQ q) in
+      match w with
+      | C02.Model.ROk =>
+          let a3 := C02.Model.acc_step (C02.Model.b_sec s2) a2 (C02.Model.OpQ q) w in
+          let '(s4, a4) := step_plain c s3 a3 C02.Model.OpNext in
+          let '(s5, a5) := if aa then step_plain c s4 a4 (C02.Model.OpHdr [C02.Model.HFlag C02.Model.FAa true]) else (s4, a4) in
+          match push_all trunc c an s5 a5 with
+          | inr x => TmPanic x
+          | inl (s6, a6, t1) =>
+              let '(s7, a7) := step_plain c s6 a6 C02.Model.OpNext in
+              match (if t1 then inl (s7, a7, true) else push_all trunc c au s7 a7) with
+              | inr x => TmPanic x
+              | inl (s8, a8, t2) =>
+                  let '(s9, a9) := step_plain c s8 a8 C02.Model.OpNext in
+                  match (if t2 then inl (s9, a9, true) else push_all trunc c ad s9 a9) with
+                  | inr x => TmPanic x
+                  | inl (s10, a10, t3) =>
+                      if t3 then let '(s11, a11) := step_plain c s10 a10 (C02.Model.OpHdr [C02.Model.HFlag C02.Model.FTc true]) in TmOk s11 a11
+                      else TmOk s10 a10
+                  end
+              end
+          end
+      | C02.Model.RPanic x => TmPanic x
+      | _ => TmPanic P_UNWRAP       (* start_answer(..).unwrap(): the question does not fit *)
+      end
+  end.
+End Run.
+
+(* the truncating shape never panics because a record push failed *)
+Lemma push_all_trunc c : forall rs s acc x, push_all true c rs s acc = inr x ->
+  exists r s0, (snd (C02.Model.step c s0 (C02.Model.OpR r)) = C02.Model.RPanic x) \/ (snd (C02.Model.step c s0 (C02.Model.OpR r)) = C02.Model.RFuel /\ x = 99).
+Proof.
+  induction rs as [|r rs IH]; intros s acc x H; [discriminate|]. cbn [push_all] in H.
+  destruct (C02.Model.step c s (C02.Model.OpR r)) as [s1 w] eqn:E. destruct w; try (eapply IH; exact H); try discriminate.
+  - inversion H; subst. exists r, s. left. rewrite E. reflexivity.
+  - inversion H; subst. exists r, s. right. rewrite E. auto.
+Qed.
+
+(* concrete instance for the T2 cases: n records with rdlen octets of data each, owner = question name *)
+Definition tm_case (trunc : bool) (limit : option N) (stream : bool) (qname : wname) (qtype n rdlen : N) : tm_result :=
+  let r := C02.Model.mkR qname qtype 1 60 false [C02.Model.RBytes (repeat 0 (N.to_nat rdlen))] in
+  to_message_run trunc (C02.Model.mkCfg None stream C02.Model.KNone) (match limit with Some l => [C02.Model.OpLimit (Some l)] | None => [] end)
+                 (C02.Model.mkQ qname qtype 1) 0 0 false 0 true (repeat r (N.to_nat n)) [] [].
+
+Definition tm_obs (r : tm_result) : option (N * bool) :=
+  match r with
+  | TmOk s acc => Some (N.of_nat (length (C02.Model.a_an acc)), C02.Model.hf_tc (C02.Model.fields_of_octets (firstn 4 (C02.Model.b_hdr s ++ [0; 0; 0; 0]))))
+  | TmPanic _ => None
+  end.
+
+Definition c08_tomsg (limit : option N) (stream : bool) (qname : wname) (qtype n rdlen : N) : option (N * bool) :=
+  tm_obs (tm_case to_message_truncates limit stream qname qtype n rdlen).
+
+(* the unwrapping shape panics for a legal answer that does not fit: 40 address records, push limit 512 *)
+Definition ex_qname : wname := [[109; 97; 110; 121]; [122; 111; 110; 101]; [116; 101; 115; 116]].
+Lemma to_message_panics_when_answer_does_not_fit_refuted :
+  tm_case false (Some 512) false ex_qname 1 40 4 = TmPanic P_UNWRAP /\
+  tm_obs (tm_case false None false ex_qname 1 40 4) = Some (40, false).
+Proof. split; vm_compute; reflexivity. Qed.
+
+(* the truncating shape keeps what fits and says so *)
+Example to_message_truncates_example :
+  tm_obs (tm_case true (Some 512) false ex_qname 1 40 4) = Some (15, true) /\
+  tm_obs (tm_case true None false ex_qname 1 40 4) = Some (40, false).
+Proof. split; vm_compute; reflexivity. Qed.
+
+(* the code as it stands, whichever shape T1 found *)
+Theorem to_message_unwrap_panics : to_message_truncates = false -> c08_tomsg (Some 512) false ex_qname 1 40 4 = None.
+Proof. intro H. unfold c08_tomsg. rewrite H. vm_compute. reflexivity. Qed.
+Theorem to_message_truncating_flags : to_message_truncates = true ->
+  c08_tomsg (Some 512) false ex_qname 1 40 4 = Some (15, true) /\ c08_tomsg None false ex_qname 1 40 4 = Some (40, false).
+Proof. intro H. unfold c08_tomsg. rewrite H. split; vm_compute; reflexivity. Qed.
